@@ -329,7 +329,7 @@ def _ref_element(st, n, clips, x, y, nch):
         if _inside(bb, x, y):
             i = (y - bb[1]) * (bb[2] - bb[0]) + (x - bb[0])
             Cs = [_u8(n["color"][c][i]) for c in range(nch)]
-            fj = _u8(n["alpha"][i])
+            fj = Fr(1) if n.get("noalpha") else _u8(n["alpha"][i])  # no transparency plane: opaque inside its box
         else:
             Cs, fj = [Fr(1)] * nch, Fr(0)
         aj = fj
@@ -408,7 +408,7 @@ def flat_normal_over(spec, x, y):
         i = (y - bb[1]) * (bb[2] - bb[0]) + (x - bb[0])
         fm, qm = _ref_mask(n, x, y)
         fk = Fr(1) if n.get("fill") is None else _u8(n["fill"])
-        s = _u8(n["alpha"][i]) * fm * qm * fk * _u8(n["op"])
+        s = (Fr(1) if n.get("noalpha") else _u8(n["alpha"][i])) * fm * qm * fk * _u8(n["op"])
         P = [_u8(n["color"][c][i]) * s + p * (1 - s) for c, p in enumerate(P)]
         a = s + a * (1 - s)
     return P, a
@@ -493,6 +493,11 @@ def _build_nodes(psd, parent, nodes, spec, compression, c16_workaround):
                 w, h = im.size
                 layer._channels[0].set_data(sep_alpha.tobytes(), w, h, 8)
                 layer._record.channel_info[0].length = len(layer._channels[0].data) + 2
+            if n.get("noalpha"):
+                # a layer as third-party writers (and Photoshop's Background) store it: no channel -1
+                assert layer._record.channel_info[0].id == -1
+                del layer._record.channel_info[0]
+                layer._channels.pop(0)
             layer.blend_mode = _bm_enum(n["bm"])
             _apply_attrs(layer, n, compression)
             parent.append(layer)
@@ -721,6 +726,10 @@ def gen_px(rng, W, H, nch, modes, **kw):
     else:
         al = [rng.choice(ALPHAS) for _ in range(n)]
     d = {"k": "px", "bbox": bb, "color": cols, "alpha": al}
+    p_noalpha = kw.pop("p_noalpha", 0.0)
+    if rng.random() < p_noalpha:
+        d["noalpha"] = True
+        d["alpha"] = [255] * n
     d.update(gen_attrs(rng, modes, **kw))
     if rng.random() < d.pop("_p_mask"):
         d["mask"] = gen_mask(rng, bb, W, H)
@@ -730,13 +739,14 @@ def gen_px(rng, W, H, nch, modes, **kw):
 def gen_nodes(rng, W, H, nch, modes, budget, depth, **kw):
     """budget = number of pixel layers still allowed (mutable list of one int)"""
     nodes = []
+    gkw = {k: v for k, v in kw.items() if k != "p_noalpha"}
     k = rng.randint(1, max(1, min(budget[0], 5)))
     for _ in range(k):
         if budget[0] <= 0:
             break
         if depth < 3 and rng.random() < (0.3 if depth == 0 else 0.25):
             g = {"k": "grp"}
-            g.update(gen_attrs(rng, modes, group=True, **kw))
+            g.update(gen_attrs(rng, modes, group=True, **gkw))
             pm = g.pop("_p_mask")
             g["children"] = gen_nodes(rng, W, H, nch, modes, budget, depth + 1, **kw)
             if rng.random() < pm * 0.6:
@@ -744,7 +754,7 @@ def gen_nodes(rng, W, H, nch, modes, budget, depth, **kw):
             nodes.append(g)
         else:
             budget[0] -= 1
-            nodes.append(gen_px(rng, W, H, nch, modes, **kw))
+            nodes.append(gen_px(rng, W, H, nch, modes, **dict(kw)))
     return nodes
 
 
@@ -794,6 +804,8 @@ def features(spec):
             fs.add("mask")
         if n.get("ko"):
             fs.add("knockout")
+        if n.get("noalpha"):
+            fs.add("no-transparency-plane")
         if not n.get("vis", True):
             fs.add("hidden")
         if n["op"] < 255:
@@ -845,6 +857,7 @@ def coq_attrs(n):
 
 def coq_node(n):
     if n["k"] == "px":
+        # a layer without a transparency plane is opaque inside its box: for the model, an all-255 plane
         return "(Px %s [%s] %s %s)" % (_rect(n["bbox"]), ";".join(_zl(c) for c in n["color"]), _zl(n["alpha"]), coq_attrs(n))
     return "(Gr %s [%s] %s)" % ("true" if n["bm"] == "pass_through" else "false",
                                 ";".join(coq_node(c) for c in n["children"]), coq_attrs(n))
@@ -969,3 +982,24 @@ def coq_case(spec, color, alpha, vp, outs, tol=210):
 
 
 COMP_IMPORTS = ["Base.Prelude", "Composite.Scalar", "Composite.Model", "Composite.Geometry", "Composite.Doc", "Composite.Corr"]
+
+
+def noalpha_exposed(spec, viewport=None):
+    """classifier of the finding 'a pixel layer without transparency plane is opaque over the whole viewport':
+    some composited (visible, ancestors visible) such layer whose box does not cover the viewport"""
+    W, H = spec["size"]
+    vp = tuple(viewport) if viewport else (0, 0, W, H)
+
+    def rec(nodes):
+        for n in nodes:
+            if not _visible(n):
+                continue
+            if n["k"] == "grp":
+                if rec(n["children"]):
+                    return True
+            elif n.get("noalpha"):
+                bb = n["bbox"]
+                if not (bb[0] <= vp[0] and bb[1] <= vp[1] and bb[2] >= vp[2] and bb[3] >= vp[3]):
+                    return True
+        return False
+    return rec(spec["layers"])
